@@ -242,3 +242,24 @@ Proof.
 Qed.
 Theorem optimize_invariants : forall u16 n n', optimize u16 n = Ok n' -> qok n = true -> qok n' = true /\ ng n' = ng n.
 Proof. intros u16 n n' E. exact (optimize_with_invariants PASS_FUEL u16 n n' E). Qed.
+
+(* every node kind the parser produces stays among the well-formed positions, \q{...} string sets included (each
+   alternative is lowered to pieces that are UTF-8 encodings, ASCII byte sets, small character sets or single
+   non-scalar elements) *)
+Theorem al_parsed : forall ix unicode utf16 h (okp : nat -> Prop),
+  text_ok ix unicode h okp -> text_enc ix h okp -> forall n, parsed n = true -> al ix unicode utf16 h okp n.
+Proof.
+  intros ix unicode utf16 h okp (Hk0 & Hk1 & Hk5 & Hk4 & Hcp & Hb1 & Hb2 & Hstep) (He1 & He2).
+  induction n as [n Hleaf|l H|a b IHa IHb|id c nm IHc|neg bw sg eg c IHc|b mn mx g egs ege IHb|b mn mx g IHb] using node_ind2;
+    intro Hs.
+  - destruct n; try contradiction; try discriminate Hs;
+      try (apply (al_simple ix unicode utf16 h okp Hk1 Hk4 Hb1); reflexivity).
+    exact (al_stringset ix unicode utf16 h okp Hk0 Hk1 Hb1 He2 alts icase).
+  - apply al_cat. cbn [parsed] in Hs. rewrite forallb_forall in Hs. rewrite Forall_forall in *.
+    intros x Hx. apply H; [exact Hx|apply Hs; exact Hx].
+  - cbn [parsed] in Hs. apply andb_true_iff in Hs as [H1 H2]. split; auto.
+  - apply IHc. exact Hs.
+  - apply IHc. exact Hs.
+  - apply IHb. exact Hs.
+  - apply IHb. exact Hs.
+Qed.
